@@ -69,6 +69,17 @@ static inline HeapItem *iora_heap_front(iora_heap *h) { IORA_ASSERT(h->n > 0, "f
 static inline HeapItem *iora_heap_back(iora_heap *h) { IORA_ASSERT(h->n > 0, "back() on non-empty vector"); return &h->a[h->n - 1]; }
 static inline void iora_heap_pop_back(iora_heap *h) { IORA_ASSERT(h->n > 0, "pop_back() on non-empty vector"); h->n--; }
 static inline void iora_heap_emplace_back(iora_heap *h, HeapItem x) { IORA_ASSERT(h->n < HEAP_CAP, "bounded stand-in: capacity 7"); h->a[h->n] = x; h->n++; }
+#elif defined(HEAP_SYMBOLIC)
+/* real storage of SYMBOLIC size (unbounded proofs of the heap ORDER with a ghost witness index GI) */
+typedef struct { HeapItem *a; size_t n; } iora_heap;
+size_t G_heap_cap;
+static inline bool iora_heap_empty(const iora_heap *h) { return h->n == 0; }
+static inline size_t iora_heap_size(const iora_heap *h) { return h->n; }
+static inline HeapItem *iora_heap_at(iora_heap *h, size_t i) { IORA_ASSERT(i < h->n, "vector operator[] index in range"); return &h->a[i]; }
+static inline HeapItem *iora_heap_front(iora_heap *h) { IORA_ASSERT(h->n > 0, "front() on non-empty vector"); return &h->a[0]; }
+static inline HeapItem *iora_heap_back(iora_heap *h) { IORA_ASSERT(h->n > 0, "back() on non-empty vector"); return &h->a[h->n - 1]; }
+static inline void iora_heap_pop_back(iora_heap *h) { IORA_ASSERT(h->n > 0, "pop_back() on non-empty vector"); h->n--; }
+static inline void iora_heap_emplace_back(iora_heap *h, HeapItem x) { IORA_ASSERT(h->n < G_heap_cap, "storage for one more item was provided by the harness"); h->a[h->n] = x; h->n++; }
 #else
 /* abstract heap for the step proofs (unbounded size): only the front element and the last pushed element are tracked;
  * heapPop/siftUp are REPLACED by recording contracts there, so no other element is ever read */
@@ -89,8 +100,33 @@ size_t G_locks, G_pokes, G_errors; int G_last_error;
 static inline void TimerService_poke(TimerService *self) { (void)self; G_pokes++; }
 static inline void TimerService_handleError(TimerService *self, int code, const char *msg, int e) { (void)self; (void)msg; (void)e; G_errors++; G_last_error = code; }
 
+/* ---- heap order with a ghost WITNESS index GI (no quantifier): "for arbitrary GI in [1,n): heap[parent(GI)].tp <= heap[GI].tp".
+ * The hole `idx` is the only place where the order may be broken; the clauses below are closed under one iteration for a FIXED GI:
+ * every instance of the order they need is an instance at GI, parent(GI) or a child of GI (derivation in NOTES.md). ---- */
+size_t GI;
+#define HPAR(i) (((i) - 1) / 2)
+#define HA_(i) (self->_heap.a[i])
+#define HLE(i, j) (HA_(i).tp <= HA_(j).tp)
+#ifdef HEAP_SYMBOLIC
+#define IORA_LOOP_TimerService_siftUp_1 IORA_LC( \
+  __CPROVER_assigns(idx, __CPROVER_object_whole(self->_heap.a)) \
+  __CPROVER_loop_invariant(idx < self->_heap.n) \
+  /* (a) order everywhere except at the hole            */ __CPROVER_loop_invariant((GI >= 1 && GI < self->_heap.n && GI != idx) ==> HLE(HPAR(GI), GI)) \
+  /* (b) children of the hole vs. the hole's parent     */ __CPROVER_loop_invariant((GI >= 1 && GI < self->_heap.n && idx >= 1 && HPAR(GI) == idx) ==> HLE(HPAR(idx), GI)) \
+  /* (c) order at parent(GI) while the hole is below it */ __CPROVER_loop_invariant((GI >= 1 && GI < self->_heap.n && HPAR(GI) >= 1 && idx > HPAR(GI)) ==> HLE(HPAR(HPAR(GI)), HPAR(GI))) \
+  __CPROVER_decreases(idx))
+#define HKID_OK(p, c) (!((c) < self->_heap.n) || HLE(p, c))
+#define IORA_LOOP_TimerService_siftDown_1 IORA_LC( \
+  __CPROVER_assigns(idx, __CPROVER_object_whole(self->_heap.a)) \
+  __CPROVER_loop_invariant(idx < self->_heap.n && self->_heap.n <= ((size_t)1 << 40)) \
+  /* (a) order everywhere except hole -> its children    */ __CPROVER_loop_invariant((GI >= 1 && GI < self->_heap.n && HPAR(GI) != idx) ==> HLE(HPAR(GI), GI)) \
+  /* (c) hole == GI: GI's children vs. GI's parent       */ __CPROVER_loop_invariant((GI == idx && GI >= 1) ==> (HKID_OK(HPAR(GI), 2 * GI + 1) && HKID_OK(HPAR(GI), 2 * GI + 2))) \
+  /* (d) order at GI's children while the hole is above  */ __CPROVER_loop_invariant((idx < GI && GI < self->_heap.n) ==> (HKID_OK(GI, 2 * GI + 1) && HKID_OK(GI, 2 * GI + 2))) \
+  __CPROVER_decreases(self->_heap.n - idx))
+#else
 #define IORA_LOOP_TimerService_siftUp_1 IORA_LC()
 #define IORA_LOOP_TimerService_siftDown_1 IORA_LC()
+#endif
 
 /* schedulePeriodic guard prefix */
 _Bool G_guard_passed; int64_t G_deadline;
